@@ -2,7 +2,7 @@
    Passes/EditProofs.v and Matcher/NMProofs.v.  text = list of code points after text-mode decoding. *)
 From Coq Require Import List Arith Bool ZArith NArith Lia.
 Import ListNotations.
-From CV Require Import Matcher.NM Matcher.NMProofs Driver.Outcome Passes.Edit Passes.EditProofs.
+From CV Require Import Matcher.NM Matcher.NMProofs Driver.Outcome Passes.Edit Passes.EditProofs Passes.BalancedComplete.
 
 (* lines: the candidate is the text minus the whole lines [i, e) — a subsequence, strictly
    shorter, hence different (every text, every non-empty in-range slice). *)
@@ -50,6 +50,29 @@ Theorem C07_balanced_local :
   (m = BAll -> Subseq (balanced_replace m t (a, b)) t /\ length (balanced_replace m t (a, b)) < length t).
 Proof. exact balanced_replace_local. Qed.
 
+(* balanced passes without a prefix, every candidate rejected (the driver's run: new = find from 0; transform,
+   which skips groups whose replacement changes nothing; advance = find from start + 1): EVERY balanced group
+   whose replacement changes the text is offered — for every text, every delimiter pair and every mode — and
+   nothing but replacements of balanced groups is offered. *)
+Theorem C07_balanced_every_group_offered :
+  forall (rxm : nat -> str -> nat -> option nat),
+  (forall id s i j, rxm id s i = Some j -> i <= j /\ j <= length s) ->
+  forall (o c : N), o <> c -> forall (m : bmode) (t : text) (a j : nat),
+  Balanced o c t a j -> balanced_replace m t (a, j) <> t ->
+  In ((a, j), balanced_replace m t (a, j))
+     (all_rejected rxm o c m t (S (length t)) (S (length t)) (find rxm o c None t 0%Z)).
+Proof.
+  intros rxm RB o c OC m t a j B CH.
+  apply (all_rejected_complete rxm RB o c OC m t a j B CH (S (length t)) ltac:(lia) (S (length t)) 0); lia.
+Qed.
+Theorem C07_balanced_only_groups_offered :
+  forall (rxm : nat -> str -> nat -> option nat),
+  (forall id s i j, rxm id s i = Some j -> i <= j /\ j <= length s) ->
+  forall (o c : N), o <> c -> forall (m : bmode) (t : text) (inner fuel : nat) (x : span * text),
+  In x (all_rejected rxm o c m t inner fuel (find rxm o c None t 0%Z)) ->
+  exists a j, x = ((a, j), balanced_replace m t (a, j)) /\ Balanced o c t a j /\ snd x <> t.
+Proof. intros rxm RB o c OC m t inner fuel x. exact (all_rejected_sound rxm RB o c OC m t inner fuel 0 x). Qed.
+
 (* ints / special / peep / ternary: one reported span is replaced; text before and after it is
    preserved character for character; a replacement of another length always differs. *)
 Theorem C07_span_replacement_local :
@@ -66,3 +89,9 @@ Example C07_example :
   balanced_replace BInside [120;40;97;41;121]%N (1, 4) = [120;40;41;121]%N /\
   delete_spans [47;42;120;42;47;97;47;42;42;47]%N 0 [(0,5);(6,10)] = [97]%N.
 Proof. vm_compute. repeat split; reflexivity. Qed.
+
+(* non-vacuity: in "a(b)(c)" with parens-only both groups are offered, in order *)
+Example C07_offered_example :
+  map fst (all_rejected (fun _ _ _ => None) 40%N 41%N BOnly [97;40;98;41;40;99;41]%N 8 8
+             (find (fun _ _ _ => None) 40%N 41%N None [97;40;98;41;40;99;41]%N 0%Z)) = [(1, 4); (4, 7)].
+Proof. vm_compute. reflexivity. Qed.
